@@ -11,10 +11,18 @@ C04 — Batched dispatch defers, coalesces and delivers once on outermost exit.
    parameters, and `param.update(...)` used as a context manager restores the previous values and
    links on exit."
 
-Model: Dispatch/Model.lean.  Helper lemmas: Dispatch/Lemmas.lean.
-Not modelled: Event parameters (the transient True), links (C08).
+Model: Dispatch/Model.lean.  Helper lemmas: Dispatch/Lemmas.lean, Dispatch/QueueLemmas.lean.
+Event parameters are modelled (`Cfg.events`).  Not modelled: links (C08); "on an object": see
+`other_object_is_independent`.
+How the pieces compose into the English sentence: `batch_statement_is_body_then_flush` (a batch is its
+body — during which nothing runs, `batch_body_invokes_nothing` — followed by the flush of what the body
+queued, whatever the body's outcome); `batched_assignment_queues_exactly_the_passing_watchers` (what each
+assignment in the body adds to the queues, exactly) and `deferred_stays_deferred` (C05: it stays there
+through every later statement); `queue_never_holds_a_watcher_twice`; `flush_first_round` (the flush
+invokes every queued watcher once, in precedence order, with one last event per parameter).
 -/
 import ParamVerif.Dispatch.Lemmas
+import ParamVerif.Dispatch.QueueLemmas
 
 namespace ParamVerif.Dispatch
 
@@ -95,6 +103,38 @@ theorem batched_assignment_queues_final_value (c : Cfg) (f : Nat) (w : World) (w
     (hb : w.batch = true) (hp : passes w.trigger wt ev = true) :
     (run c (f + 1) (.callWatcher wt ev) w).2.1.events = w.events ++ [ev] := by
   simp [run, hp, hb]
+
+/-- **C04 (what a batched assignment queues, exactly).**  While a context is open, a valid assignment
+`p := v` runs nothing and leaves in the queues exactly this: one copy of the event `(p, old, v)` per
+watcher of `p` that passes the changes-only filter, and those watchers — each object once, in dispatch
+order — appended to the queued watchers.  Nobody else is queued, nothing already queued is lost. -/
+theorem batched_assignment_queues_exactly_the_passing_watchers (c : Cfg) (f : Nat) (w : World) (p : Nat) (v : Int)
+    (hb : w.batch = true) (hv : c.valid p v = true) (h : (run c f (.setPlain p v) w).1 ≠ .oof) :
+    run c f (.setPlain p v) w =
+      (.ok, { w with vals := w.vals.set p v,
+                     events := w.events ++ (passing w p v).map (fun _ => { name := p, old := getVal w p, new := v }),
+                     queued := enqueue w.queued (passing w p v) }, []) :=
+  setPlain_in_batch_exact c f w p v hb hv h
+
+/-- … in particular every passing watcher is then in the queue, and only watchers that were queued before
+or pass now are -/
+theorem batched_assignment_queue_membership (c : Cfg) (f : Nat) (w : World) (p : Nat) (v : Int)
+    (hb : w.batch = true) (hv : c.valid p v = true) (h : (run c f (.setPlain p v) w).1 ≠ .oof) :
+    (∀ wt ∈ passing w p v, wt.uid ∈ (run c f (.setPlain p v) w).2.1.queued.map (·.uid)) ∧
+    (∀ wt ∈ (run c f (.setPlain p v) w).2.1.queued, wt ∈ w.queued ∨ wt ∈ passing w p v) := by
+  rw [setPlain_in_batch_exact c f w p v hb hv h]
+  exact ⟨fun wt hwt => uid_mem_enqueue _ _ wt hwt, fun wt hwt => mem_enqueue _ _ wt hwt⟩
+
+/-- **C04 (the outermost exit flushes what the body queued).**  `with batch_call_watchers(obj): body`
+with no batch open around it is: the body with the flag set, then — whether the body returned or raised —
+the flush, with the flag cleared, of the queues the body left. -/
+theorem batch_statement_is_body_then_flush (c : Cfg) (f : Nat) (body : List Stmt) (w : World) (hb : w.batch = false)
+    (h : (run c (f + 1) (.stmt (.batch body)) w).1 ≠ .oof) :
+    ∃ r, (run c (f + 1) (.stmt (.batch body)) w).2.2 =
+      [.stmt "batch" 0 0 0 false w.trigger []
+        ((run c f (.stmts body) { w with batch := true }).2.2 ++
+         (run c f .flush { (run c f (.stmts body) { w with batch := true }).2.1 with batch := false }).2.2) r] :=
+  batch_is_body_then_flush c f body w hb h
 
 /-- The statement's "qualifying" read per watcher — a changes-only watcher receives only events of
 parameters that changed — is **false** of the code (and of the model): the queue does not record
@@ -398,7 +438,10 @@ def c04World : World :=
 
 -- batch { a = 1; a = 2; b = 0 }: one flush round, watcher 1 (precedence 0) then watcher 0; watcher 0 gets
 -- one event for a carrying 2 — and (the finding) the unchanged event of b
-example : callSigs (run c04Cfg 40 (.stmt (.batch [.set 0 1, .set 0 2, .set 1 0])) c04World).2.2 = [] := by decide
+example : (match (run c04Cfg 40 (.stmt (.batch [.set 0 1, .set 0 2, .set 1 0])) c04World).2.2 with
+    | [.stmt "batch" _ _ _ _ _ _ ch _] => (callSigs ch).map (fun s => (s.1, s.2.2))
+    | _ => []) = [(1, true), (0, true)] := by decide
+example : passing { c04World with batch := true } 1 5 = [mkW 1 [1] false false 0 9, mkW 0 [0, 1] true false 1 9] := by decide
 example : (run c04Cfg 40 (.stmt (.batch [.set 0 1, .set 0 2, .set 1 0])) c04World).2.1.ncalls = 2 := by decide
 example : (run c04Cfg 40 (.stmts [.set 0 1, .set 0 2]) { c04World with batch := true }).2.1.events =
     [{ name := 0, old := 0, new := 1 }, { name := 0, old := 1, new := 2 }] := by decide
